@@ -1,4 +1,5 @@
-(* C02 / C04 / C06 through every depth: objects whose properties are scalar leaves (constrained strings, integers, booleans) or,
+(* C02 / C04 / C05 / C06 through every depth: objects whose properties are scalar leaves (constrained strings, integers, booleans,
+   numbers with any bounds) or,
    recursively, such objects again - nested to any depth n.  The struct the generator declares for the root accepts a JSON object
    iff the object is valid under the schema (both directions), by induction on n over the one-level theorem [LevelP.level_exact]:
    the check attached to an object-valued property is the method of the nested struct, which is the statement one level down. *)
@@ -17,7 +18,60 @@ Notation gen := (Gen.gen idf cf defs).
 Notation dec := (Exec.dec fmt_ok env).
 Notation valid := (Valid.valid fmt_ok sdefs).
 
-Definition leaf (p : schema) : Prop := str_leaf p \/ int_leaf p \/ bool_leaf p.
+(* numbers with any combination of the four bounds and no multipleOf: the emitted comparisons are exact on every number *)
+Definition num_leaf (p : schema) : Prop :=
+  exists c, p = Sch c [] None false None [] [] /\ c_types c = [SNumber] /\ c_ref c = None /\ c_enum c = None /\ c_default c = None /\ c_mult c = None.
+
+Definition leaf (p : schema) : Prop := str_leaf p \/ int_leaf p \/ bool_leaf p \/ num_leaf p.
+
+Lemma gen_num_leaf f self sc p : num_leaf p -> gen (S f) MInline self false p sc = Done (TFloat, c_bounds (s_con p)).
+Proof.
+  intros (c & -> & Ht & Hr & He & _). cbn [Gen.gen s_con s_any_of s_all_of]. rewrite He, Hr, Ht. unfold determine_type. rewrite Ht. cbn. reflexivity.
+Qed.
+
+Lemma valid_num_leaf fv p x : num_leaf p -> valid (S fv) p x =
+  match x with JNum n => spec_numeric None (c_bounds (s_con p)) (nq n) | _ => false end.
+Proof.
+  intros (c & -> & Ht & Hr & He & _ & Hm). cbn [Valid.valid s_con s_all_of s_any_of]. rewrite Hr, Ht, He. cbn [type_ok existsb forallb].
+  destruct x; cbn [type_matches orb andb]; try reflexivity. rewrite ?andb_true_r, ?orb_false_r, ?Hm. cbn [andb]. reflexivity.
+Qed.
+
+Lemma num_exact b x : accept_numeric false None b x = spec_numeric None b x.
+Proof.
+  unfold accept_numeric, spec_numeric. cbn [accept_multiple spec_multiple andb].
+  assert (Hid : forall r, trunc_opt false r = r).
+  { intros [[q|] e]; unfold trunc_opt, value_of; reflexivity. }
+  rewrite !Hid. exact (BoundsP.bounds_exact b x).
+Qed.
+
+Lemma num_field fd fv c self fname k p kv :
+  num_leaf p -> fname <> [] ->
+  match lookup k kv with
+  | Some x => x <> JNull -> field_ok (dec (S (S fd))) zero (default_val env dv_fuel) kv (pair_of (make_field defs c self fname k p TFloat (c_bounds (s_con p)))) = valid (S fv) p x
+  | None => mem k (c_required c) = false -> field_ok (dec (S (S fd))) zero (default_val env dv_fuel) kv (pair_of (make_field defs c self fname k p TFloat (c_bounds (s_con p)))) = true
+  end.
+Proof.
+  intros Hleaf Hn.
+  assert (Hsingle : forall v, get_plain fname (GSt [(fname, v)]) = Some v).
+  { intros v. destruct fname as [|c0 n0]; [contradiction|]. cbn [get_plain lookup]. rewrite str_eqb_refl. reflexivity. }
+  destruct (lookup k kv) as [x|] eqn:Hl.
+  - intros Hnull. rewrite (valid_num_leaf fv p x Hleaf). destruct Hleaf as (pc & -> & Ht & Hr & He & Hd & Hm). unfold make_field, pair_of. cbn [s_con]. rewrite Hd.
+    destruct (mem k (c_required c)).
+    + unfold field_ok. cbn [fst snd f_json f_ty f_name]. rewrite Hl. destruct x; try contradiction; cbn [Exec.dec]; try reflexivity.
+      cbn [field_validators]. rewrite Hm. destruct (has_bound_kw None (c_bounds pc)) eqn:Ek.
+      * unfold value_checks. cbn [forallb]. rewrite (vnumeric_value (default_val env dv_fuel) None _ fname k false _ _ (GF (nq n)) (nq n) (Hsingle _) eq_refl), andb_true_r, num_exact.
+        destruct (spec_numeric _ _ _); reflexivity.
+      * cbn [value_checks forallb]. rewrite (no_bound_kw _ _ _ Ek). reflexivity.
+    + cbn [nillable_ty]. unfold field_ok. cbn [fst snd f_json f_ty f_name]. rewrite Hl. destruct x; try contradiction; cbn [Exec.dec obind]; try reflexivity.
+      cbn [field_validators]. rewrite Hm. destruct (has_bound_kw None (c_bounds pc)) eqn:Ek.
+      * unfold value_checks. cbn [forallb]. rewrite (vnumeric_pointer (default_val env dv_fuel) None _ fname k false _ _ (GF (nq n)) (nq n) (Hsingle _) eq_refl), andb_true_r, num_exact.
+        destruct (spec_numeric _ _ _); reflexivity.
+      * cbn [value_checks forallb]. rewrite (no_bound_kw _ _ _ Ek). reflexivity.
+  - intros Hm. destruct Hleaf as (pc & -> & Ht & Hr & He & Hd & Hmu). unfold make_field, pair_of. cbn [s_con]. rewrite Hd, Hm. cbn [nillable_ty].
+    unfold field_ok. cbn [fst snd f_json f_ty f_name]. rewrite Hl. cbn [zero field_validators]. rewrite Hmu.
+    destruct (has_bound_kw None (c_bounds pc)); [|reflexivity]. unfold value_checks. cbn [forallb].
+    rewrite (vnumeric_nil (default_val env dv_fuel) None _ fname k _ _ _ (Hsingle _)). reflexivity.
+Qed.
 
 (* a scalar object of nesting depth at most n *)
 Fixpoint sobj (n : nat) (s : schema) : Prop :=
@@ -81,13 +135,19 @@ Proof.
   unfold field_ok. cbn [fst snd f_json f_ty f_name field_validators]. rewrite Hl. reflexivity.
 Qed.
 
+Lemma leaf_default_none p : leaf p -> c_default (s_con p) = None.
+Proof.
+  intros [Hl|[Hl|[Hl|Hl]]].
+  - destruct Hl as (c & -> & _ & _ & _ & Hd & _); exact Hd.
+  - destruct Hl as (c & m & -> & _ & _ & _ & Hd & _); exact Hd.
+  - destruct Hl as (c & -> & _ & _ & _ & Hd); exact Hd.
+  - destruct Hl as (c & -> & _ & _ & _ & Hd & _); exact Hd.
+Qed.
+
 Lemma sobj_default_none n s k p : sobj n s -> In (k, p) (s_props s) -> c_default (s_con p) = None.
 Proof.
   intros Hs Hin. destruct n; cbn [sobj] in Hs; destruct Hs as (_ & _ & _ & _ & _ & _ & _ & _ & Hprops);
-    destruct (Hprops k p Hin) as [[Hl|[Hl|Hl]]|Hnest]; try contradiction;
-    try (destruct Hl as (c & -> & _ & _ & _ & Hd & _); exact Hd);
-    try (destruct Hl as (c & m & -> & _ & _ & _ & Hd & _); exact Hd);
-    try (destruct Hl as (c & -> & _ & _ & _ & Hd); exact Hd).
+    destruct (Hprops k p Hin) as [Hl|Hnest]; try contradiction; try exact (leaf_default_none p Hl).
   exact (proj2 Hnest).
 Qed.
 
@@ -98,68 +158,103 @@ Proof.
   destruct x; cbn; try reflexivity. exfalso. exact (Hx _ eq_refl).
 Qed.
 
+(* one level, with the scalar leaves discharged and the other properties left to the caller *)
+Lemma level_with_leaves f fd fv self sub s scope t bb kv (other : schema -> Prop) :
+  scope <> [] ->
+  plain_object s -> c_types (s_con s) = [SObject] -> s_addl s = None -> s_addl_false s = false ->
+  NoDup (map fst (s_props s)) -> incl (c_required (s_con s)) (map fst (s_props s)) ->
+  NoDup (map fst (prop_names idf (s_props s))) -> (forall fname kp, In (fname, kp) (prop_names idf (s_props s)) -> fname <> []) ->
+  (forall k p, In (k, p) (s_props s) -> leaf p \/ (other p /\ c_default (s_con p) = None)) ->
+  NoDup (map fst kv) ->
+  (forall k p x, In (k, p) (s_props s) -> lookup k kv = Some x ->
+     x <> JNull /\ (str_leaf p -> forall s0, x = JStr s0 -> utf8_len s0 = length s0) /\ (int_leaf p -> int_value x)) ->
+  (forall fname k p ty bp, In (fname, (k, p)) (prop_names idf (s_props s)) -> In (k, p) (s_props s) -> other p -> fname <> [] ->
+     gen (S f) MInline self false p (scope ++ fname) = Done (ty, bp) ->
+     match lookup k kv with
+     | Some x => field_ok (dec (S (S fd))) zero (default_val env dv_fuel) kv (pair_of (make_field defs (s_con s) self fname k p ty bp)) = valid (S fv) p x
+     | None => mem k (c_required (s_con s)) = false ->
+               field_ok (dec (S (S fd))) zero (default_val env dv_fuel) kv (pair_of (make_field defs (s_con s) self fname k p ty bp)) = true
+     end) ->
+  gen (S (S (S f))) MDeclared self sub s scope = Done (t, bb) ->
+  is_ok (dec (S (S (S fd))) t (JObj kv)) = valid (S (S fv)) s (JObj kv).
+Proof.
+  intros Hsc Hp Hty Ha Haf Np Hreq Nn Hne Hprops Nk Hval Hother Hg.
+  apply (level_exact idf cf defs fmt_ok env sdefs (S f) (S (S fd)) (S fv) self sub s scope t bb kv Hom Hsc Hp Hty Ha Haf); try assumption.
+  - intros k p Hin. destruct (Hprops k p Hin) as [Hl|[_ Hd]]; [exact (leaf_default_none p Hl)|exact Hd].
+  - intros fname k p ty bp Hin Hgen.
+    assert (Hinp : In (k, p) (s_props s)) by (unfold prop_names in Hin; apply in_combine_r in Hin; rewrite sort_props_In in Hin; exact Hin).
+    pose proof (Hne _ _ Hin) as Hfn.
+    destruct (Hprops k p Hinp) as [[Hl|[Hl|[Hl|Hl]]]|[Hoth _]].
+    + rewrite (gen_str_leaf idf cf defs f self _ p Hl) in Hgen. inversion Hgen; subst ty bp.
+      destruct (lookup k kv) as [x|] eqn:El.
+      * destruct (Hval k p x Hinp El) as [Hnn [Hstr _]]. apply str_field_present; [exact Hl|exact Hfn|exact El|split; [exact Hnn|exact (Hstr Hl)]].
+      * intros Hm. apply str_field_absent; assumption.
+    + rewrite (gen_int_leaf idf cf defs Hms f self _ p Hl) in Hgen. inversion Hgen; subst ty bp.
+      destruct (lookup k kv) as [x|] eqn:El.
+      * destruct (Hval k p x Hinp El) as [Hnn [_ Hi]]. apply int_field_present; [exact Hl|exact Hfn|exact El|exact (Hi Hl)].
+      * intros Hm. apply int_field_absent; assumption.
+    + rewrite (gen_bool_leaf idf cf defs f self _ p Hl) in Hgen. inversion Hgen; subst ty bp.
+      pose proof (bool_field defs fmt_ok env sdefs fd fv (s_con s) self fname k p (c_bounds (s_con p)) kv Hl Hfn) as Hb.
+      destruct (lookup k kv) as [x|] eqn:El.
+      * destruct (Hval k p x Hinp El) as [Hnn _]. exact (Hb Hnn).
+      * exact Hb.
+    + rewrite (gen_num_leaf f self _ p Hl) in Hgen. inversion Hgen; subst ty bp.
+      pose proof (num_field fd fv (s_con s) self fname k p kv Hl Hfn) as Hb.
+      destruct (lookup k kv) as [x|] eqn:El.
+      * destruct (Hval k p x Hinp El) as [Hnn _]. exact (Hb Hnn).
+      * exact Hb.
+    + exact (Hother fname k p ty bp Hin Hinp Hoth Hfn Hgen).
+Qed.
+
 Theorem nested_object_exact : forall n a b c self sub s scope t bb kv,
   scope <> [] -> sobj n s -> dok n s kv ->
   gen (fuelG n a) MDeclared self sub s scope = Done (t, bb) ->
   is_ok (dec (fuelD n b) t (JObj kv)) = valid (fuelV n c) s (JObj kv).
 Proof.
   induction n as [|m IH]; intros a b c self sub s scope t bb kv Hsc Hs Hk Hg.
-  - (* depth 0: the scalar objects of LevelP *)
+  - (* depth 0: only leaves *)
     cbn [sobj] in Hs. destruct Hs as (Hp & Hty & Ha & Haf & Np & Hreq & Nn & Hne & Hprops).
     cbn [dok] in Hk. destruct Hk as (Nk & Hval).
     cbn [fuelG fuelD fuelV] in *.
-    apply (scalar_object_exact idf cf defs fmt_ok env sdefs a b c self sub s scope t bb kv Hms Hom Hsc Hp Hty Ha Haf); try assumption.
-    + intros k p Hin. destruct (Hprops k p Hin) as [Hl|[]]. exact Hl.
+    apply (level_with_leaves a b c self sub s scope t bb kv (fun _ => False)); try assumption.
+    + intros k p Hin. destruct (Hprops k p Hin) as [Hl|[]]. left; exact Hl.
     + intros k p x Hin Hl. destruct (Hval k p x Hin Hl) as (H1 & H2 & H3 & _). split; [exact H1|split; [exact H2|exact H3]].
+    + intros fname k p ty bp _ _ [].
   - (* depth m+1 *)
-    pose proof Hs as Hs0. cbn [sobj] in Hs. destruct Hs as (Hp & Hty & Ha & Haf & Np & Hreq & Nn & Hne & Hprops).
+    cbn [sobj] in Hs. destruct Hs as (Hp & Hty & Ha & Haf & Np & Hreq & Nn & Hne & Hprops).
     cbn [dok] in Hk. destruct Hk as (Nk & Hval).
     cbn [fuelG fuelD fuelV] in *.
-    destruct (fuelD_SS m b) as [fd' Hfd]. destruct (fuelV_S m c) as [fv' Hfv].
-    apply (level_exact idf cf defs fmt_ok env sdefs (S (fuelG m a)) (S (fuelD m b)) (fuelV m c) self sub s scope t bb kv Hom Hsc Hp Hty Ha Haf); try assumption.
-    + intros k p Hin. exact (sobj_default_none (S m) s k p Hs0 Hin).
-    + intros fname k p ty bp Hin Hgen.
-      assert (Hinp : In (k, p) (s_props s)) by (unfold prop_names in Hin; apply in_combine_r in Hin; rewrite sort_props_In in Hin; exact Hin).
-      pose proof (Hne _ _ Hin) as Hfn.
-      destruct (Hprops k p Hinp) as [[Hl|[Hl|Hl]]|[Hnest Hdn]].
-      * rewrite (gen_str_leaf idf cf defs (fuelG m a) self _ p Hl) in Hgen. inversion Hgen; subst ty bp.
-        rewrite Hfd, Hfv. destruct (lookup k kv) as [x|] eqn:El.
-        -- destruct (Hval k p x Hinp El) as [Hnn [Hstr _]]. apply str_field_present; [exact Hl|exact Hfn|exact El|split; [exact Hnn|exact (Hstr Hl)]].
-        -- intros Hm. apply str_field_absent; assumption.
-      * rewrite (gen_int_leaf idf cf defs Hms (fuelG m a) self _ p Hl) in Hgen. inversion Hgen; subst ty bp.
-        rewrite Hfd, Hfv. destruct (lookup k kv) as [x|] eqn:El.
-        -- destruct (Hval k p x Hinp El) as [Hnn [_ [Hi _]]]. apply int_field_present; [exact Hl|exact Hfn|exact El|exact (Hi Hl)].
-        -- intros Hm. apply int_field_absent; assumption.
-      * rewrite (gen_bool_leaf idf cf defs (fuelG m a) self _ p Hl) in Hgen. inversion Hgen; subst ty bp.
-        rewrite Hfd, Hfv.
-        pose proof (bool_field defs fmt_ok env sdefs (S fd') fv' (s_con s) self fname k p (c_bounds (s_con p)) kv Hl Hfn) as Hb.
-        destruct (lookup k kv) as [x|] eqn:El.
-        -- destruct (Hval k p x Hinp El) as [Hnn _]. exact (Hb Hnn).
-        -- exact Hb.
-      * (* a nested object: one level down *)
-        pose proof Hnest as Hn0. destruct m as [|m']; cbn [sobj] in Hnest; destruct Hnest as (Pp & Pty & Pa & _);
-          pose proof Pp as (Pe & Pr & _ & _ & Pall & Pany).
-        all: rewrite (gen_inline_object_eq idf cf defs _ self false p (scope ++ fname) Pe Pr Pall Pany Pty) in Hgen.
-        all: assert (Hscn : scope ++ fname <> []) by (intros E; apply app_eq_nil in E; destruct E as [_ E]; exact (Hfn E)).
-        all: cbn [fuelG] in Hgen; destruct (declared_struct_shape _ self false p (scope ++ fname) ty bp Pp Pa Hgen) as (fs & plan & ->).
-        all: destruct (lookup k kv) as [x|] eqn:El; [|intros Hm; apply nested_field_absent; assumption].
-        all: destruct (Hval k p x Hinp El) as (Hnn & _ & _ & Hdeep).
-        all: rewrite (nested_field_present _ (s_con s) self fname k p _ fs plan bp kv x Hdn Hfn El Hnn).
-        all: assert (Hobj : forall fdx, is_ok (dec fdx (TStruct (scope ++ fname) fs plan) x) = false -> (forall kv', x <> JObj kv') -> True) by (intros; exact I).
-        -- (* m = 0 below *)
-           destruct x as [| | | | |kv']; try contradiction;
-             try (rewrite dec_struct_type by (try discriminate; intros; discriminate); symmetry; apply valid_non_object; [exact Pr|exact Pty|intros; discriminate]).
-           specialize (Hdeep kv' eq_refl Hn0).
-           destruct (mem k (c_required (s_con s))).
-           ++ change (S (fuelD 0 b)) with (S (S (S (S b)))). change (fuelD 0 (S b)) with (S (S (S (S b)))) in *.
-              exact (IH a (S b) c self false p (scope ++ fname) _ bp kv' Hscn Hn0 Hdeep Hgen).
-           ++ exact (IH a b c self false p (scope ++ fname) _ bp kv' Hscn Hn0 Hdeep Hgen).
-        -- destruct x as [| | | | |kv']; try contradiction;
-             try (rewrite dec_struct_type by (try discriminate; intros; discriminate); symmetry; cbn [fuelV]; apply valid_non_object; [exact Pr|exact Pty|intros; discriminate]).
-           specialize (Hdeep kv' eq_refl Hn0).
-           destruct (mem k (c_required (s_con s))).
-           ++ rewrite fuelD_S. exact (IH a (S b) c self false p (scope ++ fname) _ bp kv' Hscn Hn0 Hdeep Hgen).
-           ++ exact (IH a b c self false p (scope ++ fname) _ bp kv' Hscn Hn0 Hdeep Hgen).
+    destruct (fuelD_SS m b) as [fd' Hfd]. destruct (fuelV_S m c) as [fv' Hfv]. rewrite Hfd, Hfv.
+    apply (level_with_leaves (fuelG m a) (S fd') fv' self sub s scope t bb kv (sobj m)); try assumption.
+    + intros k p x Hin Hl. destruct (Hval k p x Hin Hl) as (H1 & H2 & H3 & _). split; [exact H1|split; [exact H2|exact H3]].
+    + (* a nested object: one level down *)
+      intros fname k p ty bp Hin Hinp Hnest Hfn Hgen.
+      destruct (Hprops k p Hinp) as [Hl|[_ Hdn]].
+      { (* a property that is both a leaf and an object cannot exist: its type list would be two things *)
+        exfalso. destruct m as [|m']; cbn [sobj] in Hnest; destruct Hnest as (_ & Pty & _);
+          destruct Hl as [Hl|[Hl|[Hl|Hl]]];
+          [destruct Hl as (c0 & -> & Ht & _)|destruct Hl as (c0 & m0 & -> & Ht & _)|destruct Hl as (c0 & -> & Ht & _)|destruct Hl as (c0 & -> & Ht & _)
+          |destruct Hl as (c0 & -> & Ht & _)|destruct Hl as (c0 & m0 & -> & Ht & _)|destruct Hl as (c0 & -> & Ht & _)|destruct Hl as (c0 & -> & Ht & _)];
+          cbn [s_con] in Pty; rewrite Ht in Pty; discriminate. }
+      pose proof Hnest as Hn0.
+      assert (Pfacts : plain_object p /\ c_types (s_con p) = [SObject] /\ s_addl p = None).
+      { destruct m as [|m']; cbn [sobj] in Hnest; destruct Hnest as (Pp & Pty & Pa & _); (split; [exact Pp|split; [exact Pty|exact Pa]]). }
+      destruct Pfacts as (Pp & Pty & Pa). pose proof Pp as (Pe & Pr & _ & _ & Pall & Pany).
+      rewrite (gen_inline_object_eq idf cf defs _ self false p (scope ++ fname) Pe Pr Pall Pany Pty) in Hgen.
+      assert (Hscn : scope ++ fname <> []) by (intros E; apply app_eq_nil in E; destruct E as [_ E]; exact (Hfn E)).
+      assert (Hshape : exists fs plan, ty = TStruct (scope ++ fname) fs plan).
+      { destruct m as [|m']; cbn [fuelG] in Hgen; exact (declared_struct_shape _ self false p (scope ++ fname) ty bp Pp Pa Hgen). }
+      destruct Hshape as (fs & plan & ->).
+      destruct (lookup k kv) as [x|] eqn:El; [|intros Hm; apply nested_field_absent; assumption].
+      destruct (Hval k p x Hinp El) as (Hnn & _ & _ & Hdeep).
+      rewrite <- Hfd, <- Hfv.
+      rewrite (nested_field_present _ (s_con s) self fname k p _ fs plan bp kv x Hdn Hfn El Hnn).
+      destruct x as [| | | | |kv']; try contradiction;
+        try (rewrite dec_struct_type by (try discriminate; intros; discriminate); symmetry; rewrite Hfv; apply valid_non_object; [exact Pr|exact Pty|intros; discriminate]).
+      specialize (Hdeep kv' eq_refl Hn0).
+      destruct (mem k (c_required (s_con s))).
+      * rewrite fuelD_S. exact (IH a (S b) c self false p (scope ++ fname) _ bp kv' Hscn Hn0 Hdeep Hgen).
+      * exact (IH a b c self false p (scope ++ fname) _ bp kv' Hscn Hn0 Hdeep Hgen).
 Qed.
 End Nested.
 
